@@ -278,8 +278,13 @@ def print_axioms(module, theorems):
 # ---------------------------------------------------------------------------------------
 # running the harness and the driver
 # ---------------------------------------------------------------------------------------
-def run_harness(cfg, ops_path, trace_path, kind="harness", timeout=900, wrapper=None):
+def run_harness(cfg, ops_path, trace_path, kind="harness", timeout=None, wrapper=None):
     exe = build_binary(cfg, kind)
+    if timeout is None:
+        # "every call returns" (C05): the instrumented harness does >= 20 000 ops/s; a run that takes 50x longer than that is hung
+        try: nops = sum(1 for _ in open(ops_path))
+        except OSError: nops = 0
+        timeout = (60 + nops // 400) * (10 if wrapper else 1)
     env = dict(os.environ)
     env["ASAN_OPTIONS"] = "detect_leaks=1:abort_on_error=0:halt_on_error=1"
     env["UBSAN_OPTIONS"] = "print_stacktrace=1:halt_on_error=1"
